@@ -120,6 +120,18 @@ func matchViaRule(pattern, name string) (matched bool, err error) {
 	return verr == nil, nil
 }
 
+// matchViaRuleIn: the same with a source prefix - the artifact pre/<name> is consumed by
+// "MATCH <pattern> IN pre WITH PRODUCTS FROM dst" iff the pattern matches <name>, the path below the prefix.
+func matchViaRuleIn(pattern, name string) bool {
+	h := intoto.HashObj{"sha256": "aa"}
+	items := []interface{}{intoto.Step{Type: "step", SupplyChainItem: intoto.SupplyChainItem{Name: "src", ExpectedMaterials: [][]string{{"MATCH", pattern, "IN", "pre", "WITH", "PRODUCTS", "FROM", "dst"}, {"DISALLOW", "*"}}}}}
+	md := map[string]intoto.Metadata{
+		"src": &intoto.Metablock{Signed: intoto.Link{Type: "link", Name: "src", Materials: map[string]intoto.HashObj{"pre/" + name: h}}},
+		"dst": &intoto.Metablock{Signed: intoto.Link{Type: "link", Name: "dst", Products: map[string]intoto.HashObj{name: h}}},
+	}
+	return intoto.VerifyArtifacts(items, md) == nil
+}
+
 // matchViaAllow observes the matcher through ALLOW rules that use the same pattern in the
 // material and in the product list of one item: the product `name` (which is not a material)
 // gets past the terminal DISALLOW * iff the pattern matches it.
@@ -322,6 +334,15 @@ func runC17(c *core.Ctx) {
 				if got != want {
 					c.Violation(fmt.Sprintf("glob disagreement through the MATCH rule: consumed=%v reference match=%v", got, want), id, map[string]any{"pattern": pat, "name": name, "via": "MATCH <pattern> WITH PRODUCTS FROM dst; DISALLOW *"})
 				}
+				if name != "" && path.Clean("pre/"+name) == "pre/"+name {
+					var got3 bool
+					if !c.Guard(id, "VerifyArtifacts(MATCH IN)", map[string]any{"pattern": pat, "name": name}, func() { got3 = matchViaRuleIn(pat, name) }) {
+						c.Eval(1)
+						if got3 != want {
+							c.Violation(fmt.Sprintf("glob disagreement through the MATCH rule with a source prefix: consumed=%v reference match=%v", got3, want), id, map[string]any{"pattern": pat, "name": name, "via": "MATCH <pattern> IN pre WITH PRODUCTS FROM dst; DISALLOW * on the artifact pre/<name>"})
+						}
+					}
+				}
 				var got2 bool
 				if !c.Guard(id, "VerifyArtifacts(ALLOW)", map[string]any{"pattern": pat, "name": name}, func() { got2 = matchViaAllow(pat, name) }) {
 					c.Eval(1)
@@ -352,7 +373,7 @@ func init() {
 	core.Register(&core.Property{
 		ID:    "C17",
 		Level: "exploration",
-		Rule: "exhaustive: every pattern of length<=4 (quick) / <=6 (thorough) over {a b / * ? [ ] ^ - \\} x every name of length<=4 / <=5 over {a b / - ]}, plus seeded random ASCII and valid-UTF-8 patterns<=24 / names<=40 (half of the names derived from the pattern so that matches are frequent), plus token-based random patterns (1-7 tokens from {literal, *, ?, class, negated class, range, escape} with a name derived from them; a third of these pairs is also observed through the MATCH rule of VerifyArtifacts and through ALLOW rules that use the pattern in both rule lists of one item); " +
+		Rule: "exhaustive: every pattern of length<=4 (quick) / <=6 (thorough) over {a b / * ? [ ] ^ - \\} x every name of length<=4 / <=5 over {a b / - ]}, plus seeded random ASCII and valid-UTF-8 patterns<=24 / names<=40 (half of the names derived from the pattern so that matches are frequent), plus token-based random patterns (1-7 tokens from {literal, *, ?, class, negated class, range, escape} with a name derived from them; a third of these pairs is also observed through the MATCH rule of VerifyArtifacts (without and with a source prefix) and through ALLOW rules that use the pattern in both rule lists of one item); " +
 			"observation = len(NewSet(name).Filter(pattern))==1, oracle = reference matcher written from the documented grammar; non-trivial = the pattern contains a metacharacter; distinct = enumerated pairs are distinct by construction, random pairs by hash of (pattern,name)",
 		Assumptions: []string{
 			"the reference matcher encodes the documented grammar; a negated class containing a reversed range ([^b-a]) is not judged (counted as inconclusive)",
